@@ -49,7 +49,128 @@ def _side(body, atoms):
     return tuple('#' + x for x in sorted(lits)) if lits else ('#',)
 
 
-def relation_of(body, g):
+def _envs():
+    def v1(name):
+        return 7 + sum(ord(c) for c in name) % 13
+
+    def v2(name):
+        return 23 + sum(3 * ord(c) + 1 for c in name) % 17
+    return (v1, v2)
+
+
+def _const_eval(fd, op, val, depth=0):
+    """value of an operand computed from literals and ciphersuite constants only (`Integer::from(2).pow(CS::le - 1)`), the constants replaced by
+    val(name); None when it reads anything else or cannot be followed"""
+    if op is None or depth > 16:
+        return None
+    if op.get('k') == 'const':
+        if 'int' in op:
+            try:
+                return int(op['int'])
+            except ValueError:
+                return None
+        nm = str(op.get('uneval') or op.get('disp') or '').split('::')[-1]
+        return val(nm) if nm.isidentifier() else None
+    if op.get('k') not in ('copy', 'move'):
+        return None
+    pl = op['pl']
+    ps = [q for q in pl.get('p') or [] if q.get('k') != 'deref']
+    if ps and not (len(ps) == 1 and ps[0].get('k') == 'field' and str(ps[0].get('n')) == '0'):
+        return None
+    ds = [d for d in fd.defs.get(pl['l'], []) if not d[2].get('dst', {}).get('p')]
+    if len(ds) != 1:
+        return None
+    kind, _bi, x = ds[0]
+    if kind == 'assign':
+        rv = x['rv']
+        if rv['k'] in ('use', 'cast'):
+            return _const_eval(fd, rv['op'], val, depth + 1)
+        if rv['k'] == 'ref':
+            return _const_eval(fd, {'k': 'copy', 'pl': rv['pl']}, val, depth + 1)
+        if rv['k'] == 'binop':
+            a, b = _const_eval(fd, rv['a'], val, depth + 1), _const_eval(fd, rv['b'], val, depth + 1)
+            if a is None or b is None:
+                return None
+            o = rv['op'].replace('WithOverflow', '').replace('Unchecked', '')
+            try:
+                return {'Add': a + b, 'Sub': a - b, 'Mul': a * b, 'Shl': a << b if 0 <= b < 4096 else None, 'Div': a // b if b else None}.get(o)
+            except (TypeError, ValueError):
+                return None
+        return None
+    cal = x.get('callee') or ''
+    short = cal.split('::')[-1]
+    args = x.get('args') or []
+    if short in ('from', 'into', 'complete', 'clone', 'to_owned', 'deref', 'borrow') and args:
+        return _const_eval(fd, args[0], val, depth + 1)
+    vs = [_const_eval(fd, a, val, depth + 1) for a in args]
+    if any(v is None for v in vs) or not vs:
+        return None
+    try:
+        if short == 'pow' and len(vs) == 2 and 0 <= vs[1] < 4096:
+            return vs[0] ** vs[1]
+        if short in ('shl',) and len(vs) == 2 and 0 <= vs[1] < 4096:
+            return vs[0] << vs[1]
+        if short == 'add' and len(vs) == 2:
+            return vs[0] + vs[1]
+        if short == 'sub' and len(vs) == 2:
+            return vs[0] - vs[1]
+        if short == 'mul' and len(vs) == 2:
+            return vs[0] * vs[1]
+        if short == 'neg' and len(vs) == 1:
+            return -vs[0]
+    except (TypeError, ValueError, OverflowError):
+        return None
+    return None
+
+
+def _const_side(eng, g, i, atoms):
+    """a side that is a function of ciphersuite constants only: named by the constants it reads and by its value at two assignments of them
+    (`2^(le - 1)` and `2^(le - 2)` read the same constant and are different bounds)"""
+    if not g.oargs or i >= len(g.oargs) or any(strip(a)[0] in ('p', 'o', 's') for a in atoms):
+        return None
+    names = sorted({str(strip(a)[1]).split('::')[-1] for a in atoms if strip(a)[0] == 'a'})
+    if not names:
+        return None
+    fd = eng.fndep(g.fn) if g.fn else None
+    if fd is None:
+        return None
+    vals = []
+    for val in _envs():
+        v = _const_eval(fd, g.oargs[i], val)
+        if v is None:
+            return None
+        vals.append(v % (2 ** 61 - 1))
+    return ('=' + '+'.join(names),) + tuple('@%d' % v for v in vals)
+
+
+def _pred_tag(eng, g, i):
+    """an operand that is the verdict of a nullary predicate on an input (`x.is_some()`, `v.is_empty()`): the predicate's name - `a.is_some() !=
+    b.is_some()` and `a.is_none() != b.is_some()` read the same inputs"""
+    if not g.oargs or i >= len(g.oargs) or not g.fn:
+        return None
+    fd = eng.fndep(g.fn)
+    op = g.oargs[i]
+    for _ in range(6):
+        if fd is None or op is None or op.get('k') not in ('copy', 'move') or op['pl'].get('p'):
+            return None
+        ds = fd.defs.get(op['pl']['l'], [])
+        if len(ds) != 1:
+            return None
+        kind, _b, x = ds[0]
+        if kind == 'assign' and x['rv'].get('k') in ('use', 'cast'):
+            op = x['rv']['op']
+            continue
+        if kind == 'assign' and x['rv'].get('k') == 'ref':
+            op = {'k': 'copy', 'pl': {'l': x['rv']['pl']['l']}}
+            continue
+        if kind == 'call':
+            short = (x.get('callee') or '').split('::')[-1]
+            return short if short in ('is_some', 'is_none', 'is_empty', 'is_ok', 'is_err', 'is_zero', 'is_identity') else None
+        return None
+    return None
+
+
+def relation_of(body, g, eng=None):
     """(relation, side, side) of one test with the outcome it has on the accept path, or None when it is not a comparison of two sides"""
     if g.kind not in ('cmp', 'call') or len(g.operands) < 2:
         return None
@@ -60,6 +181,7 @@ def relation_of(body, g):
         w = 'gt' if 'Greater' in c else 'lt' if 'Less' in c else 'eq' if 'Equal' in c else w
     tv = g.truth
     each = ''
+    handed_on = False
     if g.quant:
         q = g.quant.split('::')[-1]
         each = 'each:'
@@ -67,19 +189,29 @@ def relation_of(body, g):
             tv = None
         if '{closure' not in (g.fn or ''):
             tv = None      # a test inside a function the predicate hands the element to: its own outcome there is not what the quantifier's outcome says
+            handed_on = True
     a, b = _side(body, ops[0]), _side(body, ops[-1] if len(ops) == 2 else ops[1])
+    if eng is not None and g.kind == 'call':
+        ca, cb = _const_side(eng, g, 0, ops[0]), _const_side(eng, g, 1, ops[1])
+        a, b = ca or a, cb or b
+    if eng is not None and g.kind in ('call', 'cmp') and g.oargs:
+        ta, tb = _pred_tag(eng, g, 0), _pred_tag(eng, g, 1)
+        if ta:
+            a = tuple('%s?%s' % (x, ta) for x in a)
+        if tb:
+            b = tuple('%s?%s' % (x, tb) for x in b)
     if w in ORDER:
         rel, swap = ORDER[w]
         if swap:
             a, b = b, a
         if tv is None:
-            return (each + '?' + rel, a, b)
+            return (each + ('?~' if handed_on else '?') + rel, a, b)
         if tv is False:
             rel, a, b = NEG[rel], b, a
         return (each + rel, a, b)
     if w in ('eq', 'ne', 'Eq', 'Ne'):
         if tv is None:
-            return (each + '?==', ) + tuple(sorted([a, b]))
+            return (each + ('?~==' if handed_on else '?=='), ) + tuple(sorted([a, b]))
         holds = tv if w in ('eq', 'Eq') else (not tv)
         return (each + ('==' if holds else '!='), ) + tuple(sorted([a, b]))
     if w in ('is_zero', 'is_identity', 'is_none', 'is_some', 'is_empty', 'contains', 'is_probably_prime') and tv is not None:
@@ -87,20 +219,28 @@ def relation_of(body, g):
     return None
 
 
-def senses(ctx, cfg, path):
+def senses(ctx, cfg, path, per_path=False):
     prog, ga = ctx.prog(cfg), ctx.gates_modular(cfg)
     body = prog.bodies[path]
     out = set()
     aps = ga.accept_paths(path)
+    if not aps and not body.local_ty(0).startswith(('std::result::Result', 'std::option::Option', 'bool')):
+        # a function that hands back a value or nothing: it "accepts" when it returns at all (its refusals are panics) - what every return
+        # has passed, in the function itself
+        fd = ga.eng.fndep(path)
+        rets = [bi for bi, blk in enumerate(body.blocks) if blk['term']['k'] == 'return' and not blk['cleanup']]
+        aps = [{'block': bi, 'kind': 'return', 'gates': ga.block_gates(fd, bi)} for bi in rets]
     for ap in aps:
         here = set()
         for g in ap['gates']:
             if g.kind == 'deleg' or g.dom is False:
                 continue
-            r = relation_of(body, g)
+            r = relation_of(body, g, ga.eng)
             if r is not None:
                 here.add(r)
         out.add(frozenset(here))
+    if per_path:
+        return [set(s_) for s_ in out]
     # what holds on *every* accept path
     if not out:
         return set()
@@ -128,17 +268,28 @@ def _op(r):
 
 
 def _family(op):
-    op = op.lstrip('?')
+    op = op.lstrip('?~')
     return 'order' if op in ('<', '<=') else 'equality' if op in ('==', '!=') else op.lstrip('!')
 
 
-def _compat(a, b):
+def _compat(a, b, loose=False):
     """two descriptions of one side of a comparison.  A literal side is its value.  A side computed from inputs is named by an over-approximation of
     what it depends on, which grows and shrinks with the form of the code (a helper that takes the whole list, a bound hoisted into a variable):
     two such sides agree when each name of one of them has a counterpart in the other - the same input, or a member / the whole of it."""
     lit_a, lit_b = all(x.startswith('#') for x in a), all(x.startswith('#') for x in b)
     if lit_a or lit_b:
         return lit_a and lit_b and set(a) == set(b)
+    fa, fb = bool(a) and a[0].startswith('='), bool(b) and b[0].startswith('=')
+    if fa or fb:
+        # a bound that is a function of ciphersuite constants: the same bound when it has the same values; `loose` (looking for a relation
+        # that was turned) it is enough that both are bounds in the same constants
+        if fa and fb:
+            return a == b or (loose and a[0] == b[0])
+        plain, fn_ = (b, a) if fa else (a, b)
+        return loose and set(x.lstrip('~') for x in plain) == set(fn_[0][1:].split('+'))
+
+    if loose:
+        a, b = tuple(x.split('?')[0] for x in a), tuple(x.split('?')[0] for x in b)       # (which predicate was asked of the input is the sense, not the side)
 
     def rel(x, y):
         return x == y or x.startswith(y + '.') or y.startswith(x + '.') or x == 'len(%s)' % y or y == 'len(%s)' % x
@@ -163,18 +314,34 @@ def holds(r, now):
     return False
 
 
-def rule_acceptance_senses(ctx, cfg='prod-all', group='cl03', only=None):
+def other_functions(prog, scope=('cl03::', 'utils::random')):
+    """the public functions of the scope that are no verifier entry point (issuing, committing, decoding, key handling)"""
+    entries = {resolve_fn(prog, e).path for es in rf_gatesets.ENTRIES.values() for e in es}
+    return [p for p, b in sorted(prog.bodies.items()) if p.startswith(scope) and not b.from_expansion and b.kind != 'Closure' and b.is_pub
+            and '::tests::' not in p and p not in entries]
+
+
+def rule_acceptance_senses(ctx, cfg='prod-all', group='cl03', only=None, scope=None, floor=1):
     prog = ctx.prog(cfg)
     table = load_table()
     n = 0
-    for e in rf_gatesets.ENTRIES[group]:
-        if only and not any(e.endswith(o) for o in only):
-            continue
-        body = resolve_fn(prog, e)
+    if scope is not None:
+        # the other public functions of a module: what every normal return of theirs has passed (their refusals are panics)
+        todo = [p for p in table if p.startswith(scope) and p in prog.bodies and p in set(other_functions(prog))]
+        missing_fns = [p for p in table if p.startswith(scope) and p not in prog.bodies and not any(p == resolve_fn(prog, e).path for es in rf_gatesets.ENTRIES.values() for e in es)]
+    else:
+        todo = [e for e in rf_gatesets.ENTRIES[group] if not only or any(e.endswith(o) for o in only)]
+        missing_fns = []
+    for e in todo:
+        body = resolve_fn(prog, e) if scope is None else prog.bodies[e]
         if body.path not in table:
             raise AnchorMissing('acceptance relations of %s are not tabled' % body.path)
-        now = senses(ctx, cfg, body.path)
-        missing = sorted(r for r in table[body.path] if not _op(r).startswith('?') and not holds(r, now))
+        paths = senses(ctx, cfg, body.path, per_path=True)
+        now = set()
+        for ps_ in paths:
+            now |= ps_
+        # a tabled relation has to hold on every accept path (a refusal turned into `return true` opens a path on which the opposite holds)
+        missing = sorted(r for r in table[body.path] if not _op(r).startswith('?') and not all(holds(r, ps_) for ps_ in paths))
         n += 1
         # a tabled relation is *turned* when its two sides are still compared - an order with an order, an equality with an equality - but the
         # other way round, with the other strictness, with the opposite outcome, or with an outcome that is no longer the same on every accept
@@ -183,11 +350,12 @@ def rule_acceptance_senses(ctx, cfg='prod-all', group='cl03', only=None):
         turned, gone = [], []
         for r in missing:
             fam = _family(_op(r))
-            alt = [x for x in now if len(x) == len(r) == 3 and _family(_op(x)) == fam and not (x[0].startswith('each:') and _op(x).startswith('?')) and
-                   ((_compat(r[1], x[1]) and _compat(r[2], x[2])) or (_compat(r[1], x[2]) and _compat(r[2], x[1])))]
+            alt = [x for x in now if not holds(r, {x}) and len(x) == len(r) == 3 and _family(_op(x)) == fam and not _op(x).startswith('?~') and
+                   ((_compat(r[1], x[1], True) and _compat(r[2], x[2], True)) or (_compat(r[1], x[2], True) and _compat(r[2], x[1], True)))]
             (turned if alt else gone).append({'tabled': _fmt(r), 'now': [_fmt(x) for x in alt][:3]})
         yield Ob('RF-S', '%s#acceptance-senses' % body.path, not turned,
                  'every comparison acceptance rested on still holds the same way round, with the same strictness and the same outcome on every accept path',
-                 body.span, fact={'tabled': len(table[body.path]), 'holding_now': len(now), 'turned': turned[:8], 'no_longer_compared_this_way': [g_['tabled'] for g_ in gone][:8]},
+                 body.span, fact={'tabled': len(table[body.path]), 'accept_paths': len(paths), 'turned': turned[:8], 'no_longer_compared_this_way': [g_['tabled'] for g_ in gone][:8]},
                  expected='no tabled relation turned')
-    yield Ob('RF-S', 'crate#acceptance-senses-%s' % group, n >= 1, 'entry points examined', '', fact=n, expected='>= 1', nontrivial=False)
+    yield Ob('RF-S', 'crate#acceptance-senses-%s' % (group if scope is None else '+'.join(scope)), n >= floor, 'functions examined', '',
+             fact={'examined': n, 'tabled_functions_not_found': missing_fns[:4]}, expected='>= %d' % floor, nontrivial=False)
